@@ -255,3 +255,27 @@ theorem sendPacket_spec (s : Proto) (p : Packet) :
 #print axioms tick_spec
 #print axioms sendPacket_spec
 end Ross
+
+namespace Ross
+
+/-- what the link answers to the next `try_send_packet` -/
+def nextTxAnswer (q : List (Option Nat)) : Except PErr Unit :=
+  match q with
+  | some t :: _ => .error (.interface t)
+  | _ => .ok ()
+
+theorem ifaceSend_result (s : Proto) (p : Packet) : (s.ifaceSend p).2 = nextTxAnswer s.txQueue := by
+  unfold Proto.ifaceSend nextTxAnswer
+  cases s.txQueue with
+  | nil => rfl
+  | cons a q => cases a <;> rfl
+
+/-- C16: link send errors are returned to the caller — a packet for another device returns exactly what the link
+answered to its transmission -/
+theorem sendPacket_result (s : Proto) (p : Packet) (h : (p.addr == s.addr) = false) :
+    (s.sendPacket p).2 = nextTxAnswer s.txQueue := by
+  unfold Proto.sendPacket
+  rw [h]
+  exact ifaceSend_result s p
+
+end Ross
